@@ -120,24 +120,34 @@ def buildRoot (toks : List String) : Option (Except PyErr RootSeq) := do
 
 def intToCF (i : Int) : CF := ⟨Float.ofInt i, 0.0⟩
 
-/-- user sequence object from the tokens `u size nzc ncs D cover norm` -/
-def buildUe (toks : List String) : Option (Except PyErr (UeSeq CF)) := do
+def parseCover? (coverS : String) : Option (Option (List CF)) :=
+  if coverS == "none" then some none
+  else (parseIntList? coverS "_").map (fun l => some (l.map intToCF))
+
+/-- user sequence object from the tokens `u size nzc ncs D cover norm` (model: `Cazac.buildUe`) -/
+def parseUe (toks : List String) : Option (Except PyErr (UeSeq CF)) := do
   let root ← buildRoot toks
   let ncs ← getNat toks "ncs"
   let d ← getNat toks "D"
   let norm ← getNat toks "norm"
-  let coverS ← kv toks "cover"
-  let cover : Option (List CF) ← if coverS == "none" then some none
-    else (parseIntList? coverS).map (fun l => some (l.map intToCF))
+  let cover ← (kv toks "cover").bind parseCover?
   pure (do
     let rs ← root
-    let ph ← shiftedPhases rs.seqArray ncs d
-    let x : List CF := seqValues ph
-    let row0 : List CF := match cover with
-      | none => x
-      | some [] => []
-      | some (c :: _) => x.map (fun v => v * c)
-    ueSequence x cover (norm == 1) (norm2 row0))
+    PyPhysim.Cazac.buildUe norm2 rs ⟨d, ncs, norm == 1, cover⟩)
+
+/-- one construction `D:ncs:norm:cover` of a cell history -/
+def parseSpec? (s : String) : Option (UeSpec CF) :=
+  match s.splitOn ":" with
+  | [d, ncs, norm, cover] => do
+      let d ← d.toNat?
+      let ncs ← ncs.toNat?
+      let norm ← norm.toNat?
+      let cover ← parseCover? cover
+      pure ⟨d, ncs, norm == 1, cover⟩
+  | _ => none
+
+def showUe (ue : UeSeq CF) : String :=
+  (if ue.normalized then "n1:" else "n0:") ++ showList showCL ue.rows "|"
 
 def showRowsE (r : Except PyErr (List (List CF))) : String :=
   match r with
@@ -163,10 +173,19 @@ def handle (toks : List String) : String :=
           | .ok ph => showList showRat ph | .error e => showErr e)
       | some (.error e), _, _ => showErr e
       | _, _, _ => "bad-op"
-  | "ue" :: rest => match buildUe rest with      -- the stored user sequence array
+  | "ue" :: rest => match parseUe rest with      -- the stored user sequence array
       | some (.ok ue) => showList showCL ue.rows "|"
       | some (.error e) => showErr e
       | none => "bad-op"
+  | "cell" :: rest =>        -- history of constructions on ONE shared root object
+      match buildRoot rest, (kv rest "ops").bind (fun o => (fields o ";").mapM parseSpec?) with
+      | some (.ok r), some sps =>
+        let (c, sts) := Cell.run norm2 ⟨r, []⟩ sps
+        showList (fun st => match st with | none => "ok" | some e => showErr e) sts
+          ++ " root=" ++ showList showRat c.root.seqArray
+          ++ " users=" ++ showList showUe c.users "#"
+      | some (.error e), _ => showErr e
+      | _, _ => "bad-op"
   | "est" :: rest =>
       -- plain estimator; reference = user sequence object or raw array `ref=`
       match getNat rest "m", getNat rest "K", getNat rest "dim", kv rest "Y" with
@@ -174,7 +193,7 @@ def handle (toks : List String) : String :=
         let refE : Option (Except PyErr (List CF × Bool)) :=
           match kv rest "ref" with
           | some rs => (parseCL? rs).map (fun r => .ok (r, false))
-          | none => (buildUe rest).map (fun e => e.bind (fun ue =>
+          | none => (parseUe rest).map (fun e => e.bind (fun ue =>
               match ue.cover, ue.rows with
               | none, [row] => .ok (row, ue.normalized)
               | _, _ => .error .ValueError))
@@ -192,7 +211,7 @@ def handle (toks : List String) : String :=
             | none => "bad-op"
       | _, _, _, _ => "bad-op"
   | "occ" :: rest =>
-      match getNat rest "K", getNat rest "dim", getNat rest "extra", kv rest "Y", buildUe rest with
+      match getNat rest "K", getNat rest "dim", getNat rest "extra", kv rest "Y", parseUe rest with
       | some k, some dim, some extra, some ys, some ueE =>
         match ueE with
         | .error e => showErr e
